@@ -126,7 +126,7 @@ def run(chk):
 
 def _gen(indexed, sat, seed, extra=None):
     """thorough tier: behaviours are executed and validated in slices (bounded memory)"""
-    step = 40000
+    step = 16000
     for k in range(0, len(indexed), step):
         part_b = indexed[k:k + step]
         chunks = [part_b[i::core.NPROC * 2] for i in range(core.NPROC * 2)]
